@@ -22,7 +22,7 @@
 //!
 //! History ids `faultgo-<seed>-<bits>t<n>-<k>`, n = index into `TARGETS`. Histories are generated online (the
 //! continuation depends on whether T left a handle), `cfg … budget=200000`.
-use super::gen_fault::{positions, volumes, BUDGET};
+use super::gen_fault::{positions_kinds, volumes, BUDGET};
 use super::*;
 use crate::clock::ClockMode;
 use crate::script::Whence;
@@ -163,7 +163,7 @@ pub fn run(tier: Tier, seed: u64, rng: &mut SplitMix64, n: Option<u64>, sink: &m
             let base_rng = rng.fork();
             let data = content(&mut base_rng.clone(), vol.cs as usize / 2 + 3);
             // fault-free run: the number of device calls of T and the call that writes the status byte
-            let (calls, status_call) = {
+            let (calls, status_call, kinds) = {
                 let mut r0 = base_rng.clone();
                 let mut r = setup("probe".to_string(), seed, vol, &mut r0);
                 pre(&mut r, t);
@@ -173,10 +173,11 @@ pub fn run(tier: Tier, seed: u64, rng: &mut SplitMix64, n: Option<u64>, sink: &m
                 let so = vol.status_off;
                 let sc = r.cx.s.dev.with(|d| d.wcalls.iter().find(|w| w.1 == so && w.2 == 1).map(|w| w.0));
                 r.cx.s.leak_all();
-                (c.reads + c.writes + c.seeks + c.flushes, sc)
+                let kinds = r.cx.s.dev.with(|d| d.kinds.clone());
+                (c.reads + c.writes + c.seeks + c.flushes, sc, kinds)
             };
             // the first calls (where the status byte is written) are never thinned out
-            let mut ks = positions(calls, stride, long);
+            let mut ks = positions_kinds(&kinds, stride, long);
             for k in 1..=calls.min(12) {
                 if !ks.contains(&k) {
                     ks.push(k);
